@@ -1,0 +1,20 @@
+#  Verification hooks (add-only, disabled unless the environment variable GAMBATOOLS_VERIF is 1).
+#  The algorithms report the nondeterministic choices they make (which element a set yielded) so that
+#  an observed execution can be validated against the TLA+ models in /verif/spec.
+
+import os
+
+ON = os.environ.get('GAMBATOOLS_VERIF') == '1'
+TRACE = []
+
+
+def emit(event, **fields):
+    fields['ev'] = event
+    TRACE.append(fields)
+
+
+def take():
+    """Returns the events recorded so far and clears the buffer."""
+    result = TRACE[:]
+    del TRACE[:]
+    return result
